@@ -294,7 +294,7 @@ def _grid(tier):
         for k in range(n):
             for phase in cli_crash.PHASES:
                 for kind in cli_crash.KINDS:
-                    for w in ((0, 2) if tier == "thorough" else (0,)):
+                    for w in ((0, 2) if tier == "thorough" else ((0, 2) if (kind == "hard" and phase in ("before_save", "after_save") and k >= 1) else (0,))):
                         if w and phase == "in_compute":
                             continue
                         yield {"lens": lens_all[:n], "seed": (11 + n) * (k % 2), "ids": n + k, "dither": 1.0, "comp": True,
